@@ -95,10 +95,18 @@ func constructEnum(path string, declared, data []string) qframe.QFrame {
 			sb.WriteString(",1\n")
 		}
 		opts := []csv.ConfigFunc{csv.Types(map[string]string{"e": "enum"}), csv.EmptyNull(true)}
+		callerMap := map[string][]string{"e": declared}
 		if declared != nil {
-			opts = append(opts, csv.EnumValues(map[string][]string{"e": declared}))
+			opts = append(opts, csv.EnumValues(callerMap))
 		}
-		return qframe.ReadCSV(strings.NewReader(sb.String()), opts...).Select("e")
+		// options are values a caller may keep: a first read with the same option values and the same
+		// map must neither consume them nor touch the caller's map
+		first := qframe.ReadCSV(strings.NewReader(sb.String()), opts...)
+		second := qframe.ReadCSV(strings.NewReader(sb.String()), opts...)
+		if (first.Err == nil) != (second.Err == nil) || len(callerMap) != 1 {
+			return qframe.QFrame{Err: fmt.Errorf("VERIF: reading twice with the same csv options differs (first err=%v, second err=%v) or the caller's EnumValues map was modified (%d entries left)", first.Err, second.Err, len(callerMap))}
+		}
+		return second.Select("e")
 	case "json":
 		recs := make([]map[string]interface{}, len(data))
 		for i, d := range data {
@@ -141,6 +149,9 @@ func runEnumCase(c enumCase) *core.Failure {
 	}
 	if len(declared) == 0 && len(distinct) > 255 {
 		mustFail = true
+	}
+	if q.Err != nil && strings.HasPrefix(q.Err.Error(), "VERIF:") {
+		return core.Failf("%s: %s", what, strings.TrimPrefix(q.Err.Error(), "VERIF: "))
 	}
 	if mustFail {
 		if q.Err == nil {
